@@ -73,7 +73,16 @@ def check_schema_table(h, schema):
         r = h.cmd(f"attrs {ent.capitalize()}")
         got = [tuple(w.split("/")) for w in r.split()[1:]]
         attrs = schema.all_attrs(ent.lower())
-        exp = [(a.name, a.base, "1" if a.optional else "0", "0", "0", "REF" if a.type_ref else a.base) for a in attrs]
+        e_ = schema.by_name[ent.lower()]
+        n_own = len(e_.attrs)
+        inherited, own = attrs[:len(attrs) - n_own], attrs[len(attrs) - n_own:]
+        row = lambda a, nm, der, red: (nm, a.base, "1" if a.optional else "0", der, red, "REF" if a.type_ref else a.base)
+        # positions (a redeclared one is flagged derived: the writer prints `*` there), then the redefining attributes the
+        # class carries for its redeclarations, then the entity's own attributes
+        exp = ([row(a, a.name, "1" if a.redef_name else "0", "0") for a in inherited] +
+               [row(a, a.redef_name, "0", "1") for a in inherited if a.redef_name and a.redef_name.split(".")[0] == e_.supertype
+                or a.redef_name and any(a.name == na.name for _, na in e_.redecl)] +
+               [row(a, a.name, "0", "0") for a in own])
         if got != exp:
             raise RuntimeError(f"generator/registry disagree on {ent}: generator {exp} registry {got}")
 
